@@ -26,7 +26,7 @@ KNOWN = ("C02-MIXEDKIND", "C02-GONEREF")
 
 @st.composite
 def cases(draw, tier):
-    g = draw(gg.general(inst_props=(RDF_TYPE, RDF_TYPE, RDF_TYPE, "http://ex.org/isA")))
+    g = draw(gg.general(inst_props=(RDF_TYPE, RDF_TYPE, RDF_TYPE, "http://ex.org/isA"), quirks=draw(gg.quirk_set(one_in=4))))
     cfg = draw(gg.switches())
     cfg.update(draw(gg.harmless_extras()))
     cfg["instances_report_mode"] = "mixed"
